@@ -3,6 +3,7 @@
 # property it breaks, undoes it, and prints one line per change.  /repo must be clean; it is clean again afterwards.
 cd /verif
 [ -n "$(git -C /repo status --short)" ] && { echo "/repo is not clean"; exit 2; }
+rm -rf /dev/shm/evidence.keep && cp -r /verif/evidence /dev/shm/evidence.keep
 ids=${@:-$(ls -d seeded/*/ | xargs -n1 basename)}
 for id in $ids; do
   d=seeded/$id; pid=$(python3 -c "import json;print(json.load(open('$d/meta.json'))['breaks'])")
@@ -12,4 +13,5 @@ for id in $ids; do
   v=$(echo "$out" | grep VIOLATION | head -1)
   echo "$id $pid rc=$rc ${v:-NOT-REPORTED} | $(echo "$out" | grep '^\[check\]' | tail -1)"
 done
+rm -rf /verif/evidence && mv /dev/shm/evidence.keep /verif/evidence
 [ -n "$(git -C /repo status --short)" ] && echo "WARNING: /repo not clean"
